@@ -37,6 +37,14 @@ refuted: duplicate columns); header vs row custom lists that differ by a sorted(
 `<task>.predecessors` is filled in io/raw.py (_pred_rebuild): elements must come from walking `<raw>.predecessor_ids` in
 order - walking another sequence filtered by membership in the listed ids is refuted (order of that sequence, duplicates merged).
 
+Round 6 additions: TaskRaw(**values, **kwargs) with `values` filled from a module level column -> parser table is unrolled
+into keywords (_table_kwargs); several unresolved ** arguments make "column not passed" undecided, not refuted; the custom cell
+guard is read with its polarity (`'' if k not in t.__dict__ or .. else value`), an inverted guard is refuted, a presence test the
+rule cannot evaluate is undecided; a custom column list filtered on the per-name value the discovery dict records is refuted;
+validation guards (`if ..: raise`) in the header map builder are judged - membership of the expected names in the RAW header
+row while names are BOM-stripped is refuted; order checks where `<parent>.children` is filled (_children_rebuild): assigning
+the list per `itertools.groupby(rows, key=parent_id)` group over unsorted rows is refuted.
+
 Not decided: the csv module's quoting (trusted stdlib, default dialect only), a hand-rolled date parser with its own year
 pivot (undecided), custom attribute
 names that collide with Task members, tasks whose parent_id is dangling, numeric behaviour of float()/str().
@@ -408,6 +416,13 @@ def _keys_of_dict(e):
             and not e.keywords:
         return _keys_of_dict(e.args[0])     # sorted(): the property does not fix the order of custom columns
     if isinstance(e, (ast.ListComp, ast.GeneratorExp)) and len(e.generators) == 1 and not e.generators[0].ifs \
+            and isinstance(e.generators[0].target, ast.Tuple) and len(e.generators[0].target.elts) == 2 \
+            and isinstance(e.generators[0].target.elts[0], ast.Name) and _key_name(e.elt) == e.generators[0].target.elts[0].id:
+        it = e.generators[0].iter       # [k for k, _ in D.items()]
+        if isinstance(it, ast.Call) and isinstance(it.func, ast.Attribute) and it.func.attr == 'items' and not it.args:
+            return _keys_of_dict(it.func.value)
+        return None
+    if isinstance(e, (ast.ListComp, ast.GeneratorExp)) and len(e.generators) == 1 and not e.generators[0].ifs \
             and isinstance(e.generators[0].target, ast.Name):
         k = e.generators[0].target.id
         elt = e.elt
@@ -432,6 +447,30 @@ def _key_name(e):
     if isinstance(e, ast.Call) and isinstance(e.func, ast.Name) and e.func.id == 'str' and len(e.args) == 1 and isinstance(e.args[0], ast.Name) \
             and not e.keywords:
         return e.args[0].id
+    return None
+
+
+def _strip_list(e):
+    while isinstance(e, ast.Call) and isinstance(e.func, ast.Name) and e.func.id in ('list', 'tuple', 'sorted') and len(e.args) == 1 and not e.keywords:
+        e = e.args[0]
+    return e
+
+
+def _value_filtered_keys(e):
+    """[k for k, v in D.items() if <test mentioning v>] (k possibly as f"{k}" / str(k)) -> (D name, test, v) else None"""
+    if not (isinstance(e, (ast.ListComp, ast.GeneratorExp)) and len(e.generators) == 1):
+        return None
+    g = e.generators[0]
+    it = g.iter
+    if not (isinstance(it, ast.Call) and isinstance(it.func, ast.Attribute) and it.func.attr == 'items' and not it.args and isinstance(it.func.value, ast.Name)
+            and isinstance(g.target, ast.Tuple) and len(g.target.elts) == 2 and all(isinstance(x, ast.Name) for x in g.target.elts)):
+        return None
+    kn, vn = g.target.elts[0].id, g.target.elts[1].id
+    if _key_name(e.elt) != kn:
+        return None
+    for c in g.ifs:
+        if any(isinstance(n, ast.Name) and n.id == vn for n in ast.walk(c)):
+            return it.func.value.id, c, vn
     return None
 
 
@@ -481,14 +520,34 @@ def _custom_columns(ctx, o, F, f, fx, hcall, rcall, hcustom, rcustom, rfor, rowv
             good = False
             continue
         guarded = ga[2] is not None
+        presence_atoms, inverted = [], []
         for t, pol in conds:
-            if pol and isinstance(t, ast.Compare) and len(t.ops) == 1 and isinstance(t.ops[0], ast.In) and isinstance(t.left, ast.Name) \
+            # `k in task.__dict__` holds / `k not in task.__dict__` does not hold / hasattr(task, k) holds
+            if isinstance(t, ast.Compare) and len(t.ops) == 1 and isinstance(t.ops[0], (ast.In, ast.NotIn)) and isinstance(t.left, ast.Name) \
                     and t.left.id == kv and keys_owner(t.comparators[0]) is not None and same(keys_owner(t.comparators[0]), ga[0]):
-                guarded = True
-            elif pol and isinstance(t, ast.Call) and isinstance(t.func, ast.Name) and t.func.id == 'hasattr' and len(t.args) == 2 \
+                presence_atoms.append(t)
+                if pol == isinstance(t.ops[0], ast.In):
+                    guarded = True
+                else:
+                    inverted.append((t, pol))
+            elif isinstance(t, ast.Call) and isinstance(t.func, ast.Name) and t.func.id == 'hasattr' and len(t.args) == 2 \
                     and same(t.args[0], ga[0]):
-                guarded = True
-        if not guarded:
+                presence_atoms.append(t)
+                if pol:
+                    guarded = True
+                else:
+                    inverted.append((t, pol))
+            elif any(isinstance(n, ast.Attribute) and n.attr == '__dict__' for n in ast.walk(t)) \
+                    or any(isinstance(n, ast.Name) and n.id in ('hasattr', 'dir', 'vars', 'getattr') for n in ast.walk(t)):
+                presence_atoms.append(t)        # some presence test the rule cannot evaluate (e.g. inside an `or`)
+        if not guarded and inverted and len(presence_atoms) == len(inverted):
+            o.refute(f, rcall, f"custom cell read when {cond_text(inverted)[:60]}", f"custom cell reads the attribute exactly when `{cond_text(inverted)[:60]}` - "
+                                                                                    f"i.e. when the task does NOT have it (AttributeError), and writes '' when it has")
+            good = False
+        elif not guarded and presence_atoms:
+            o.undecided(f, rcall, leaf, f"custom cell is read under a presence test the rule does not understand (`{cond_text(conds)[:70]}`)")
+            good = False
+        elif not guarded:
             o.refute(f, rcall, f"custom cell unguarded {src(leaf)[:60]}", "custom cell reads the attribute without testing that this task has it: "
                                                                           "attributes carried by only some tasks raise AttributeError")
             good = False
@@ -506,6 +565,14 @@ def _custom_columns(ctx, o, F, f, fx, hcall, rcall, hcustom, rcustom, rfor, rowv
         for c in g1.ifs + g2.ifs:
             conds += split_conj(c, True)
     elif d is None or not isinstance(d, ast.Name):
+        vf = _value_filtered_keys(_strip_list(g.iter))
+        if vf is not None:
+            dn, flt, vname = vf
+            o.refute(f, hcall, f"custom columns of {dn} filtered by {src(flt)[:50]}",
+                     f"a custom attribute gets a column only if `{src(flt)[:50]}`, a test on the ONE value `{dn}` records per attribute name (the discovery "
+                     f"loop overwrites it task by task, the last task wins): whether the attribute's column exists for all tasks depends on a single "
+                     f"task's value, so attributes with real values on other tasks are dropped from the file")
+            return
         o.undecided(f, hcall, hcustom, "custom column list is not the key list of a dict filled by a discovery loop")
         return
     else:
@@ -588,6 +655,20 @@ def ob_reader_keys(ctx, o, F):
     f, fx, ctor, rowvar, loop = r['func'], r['fx'], r['ctor'], r['rowvar'], r['loop']
     sn = StaticNames(prog, 'TaskRaw')
     kw, star = call_kwargs(ctor, sn.params())
+    # several ** arguments: a dict of converted default columns filled from a column -> parser table is unrolled into keywords
+    stars = [k_.value for k_ in ctor.keywords if k_.arg is None]
+    rest = []
+    for sv in stars:
+        tk = _table_kwargs(f, fx, sv, rowvar, r['loop'] if not r['helper'] else None)
+        if tk is None:
+            rest.append(sv)
+        else:
+            for k_, v_ in tk.items():
+                if k_ in kw:
+                    o.refute(f, ctor, f"TaskRaw(... {k_} twice)", f"TaskRaw receives `{k_}` both as keyword and through **{src(sv)} (TypeError)")
+                kw[k_] = v_
+    star = rest[0] if len(rest) == 1 else None
+    stars_unresolved = len(rest) > 1
     cells = {}
     hdr_exprs = []
     # the local name of the header map (kept unexpanded in reported constructs)
@@ -633,7 +714,10 @@ def ob_reader_keys(ctx, o, F):
     missing = [c for c in COLUMNS if c not in kw]
     extra = [k for k in kw if k not in COLUMNS]
     for c in missing:
-        o.refute(f, ctor, f"TaskRaw(...) without {c}", f"column `{c}` of the property's header is not passed to TaskRaw(...): its value is dropped on read")
+        if stars_unresolved:
+            o.undecided(f, ctor, f"TaskRaw(...) without {c}", f"column `{c}` is not a keyword of TaskRaw(...), which receives several ** arguments the rule could not resolve")
+        else:
+            o.refute(f, ctor, f"TaskRaw(...) without {c}", f"column `{c}` of the property's header is not passed to TaskRaw(...): its value is dropped on read")
     for c in extra:
         o.undecided(f, ctor, f"TaskRaw(... {c}=)", f"TaskRaw receives keyword `{c}` which is not one of the ten default columns")
     # ---- header map: all cells use the same map, built as name -> index from the first row of the same reader
@@ -644,6 +728,9 @@ def ob_reader_keys(ctx, o, F):
     elif hmaps:
         o.undecided(f, ctor, ctor, "cells are looked up through different header maps")
     # ---- everything else -> **kwargs
+    if stars_unresolved:
+        o.undecided(f, ctor, ctor, "TaskRaw(...) receives several ** arguments the rule could not resolve")
+        return
     if star is None:
         o.refute(f, ctor, 'TaskRaw(...) without **kwargs', "custom attribute columns are not passed to TaskRaw(**kwargs): they are dropped on read")
         return
@@ -724,6 +811,23 @@ def _header_map(ctx, o, F, r, hexpr):
         else:
             o.undecided(hf, key, key, f"header name transformed by .{m}()")
             return
+    for t in (_HDR_GUARDS.get(hf.qual, []) if hf is not f else []):
+        fxh = fx_of(ctx, hf)
+        tx = fxh.x(t)
+        rowp = hf.params[0] if hf.params else None
+        raw_member = [n for n in ast.walk(tx) if isinstance(n, ast.Compare) and any(isinstance(op, (ast.In, ast.NotIn)) for op in n.ops)
+                      and any(isinstance(c, ast.Name) and c.id == rowp for c in n.comparators)
+                      and ((const_str(n.left) is not None and n.left.value == COLUMNS[0])
+                           or (isinstance(n.left, ast.Name) and any(COLUMNS[0] in (const_seq(m) or []) for m in ast.walk(tx))))]
+        if raw_member and bom:
+            o.refute(hf, t, f"header validation {src(raw_member[0])[:50]} before BOM strip",
+                     f"`{hf.name}` raises when `{src(tx)[:70]}`: column names are looked up in the RAW header row `{rowp}`, while the names entered "
+                     f"into the map have U+FEFF stripped (`{src(key)[:40]}`) - a file that starts with a UTF-8 byte-order mark has '\\ufeffid' as its "
+                     f"first cell and is rejected instead of loading")
+            return
+        if not raw_member:
+            o.undecided(hf, t, t, f"header map is built only when not `{src(tx)[:70]}` (validation the rule does not understand)")
+            return
     o.site(hf, key, f"header map: {src(key)[:50]} -> {idx}")
     ctx.notes['c13_bom_stripped'] = bom
     F.bom = (bom, hf, key)
@@ -737,6 +841,9 @@ def _iter_source(it):
     if isinstance(it, ast.Call) and isinstance(it.func, ast.Name) and it.func.id == 'enumerate' and it.args:
         return it.args[0]
     return None
+
+
+_HDR_GUARDS = {}
 
 
 def _map_builder(ctx, hf):
@@ -758,10 +865,89 @@ def _map_builder(ctx, hf):
         return None
     st = stores[0]
     fors = fx.enclosing_fors(st)
-    if len(fors) != 1 or fx.cfg.conditions(fx.cfg.node_of(st)):
+    if len(fors) != 1:
         return None
+    # validation guards before the loop (`if <problem>: raise ..`) are collected and judged by the caller; any other condition
+    # on the store is not a plain name -> index loop
+    guards = []
+    for t, pol in fx.cfg.conditions(fx.cfg.node_of(st)):
+        ifs = [n for n in walk_no_nested(hf.node) if isinstance(n, ast.If) and n.test is t]
+        if len(ifs) == 1 and not pol and not ifs[0].orelse and isinstance(ifs[0].body[-1], ast.Raise) and not fx.enclosing_fors(ifs[0]):
+            guards.append(t)
+        else:
+            return None
+    _HDR_GUARDS[hf.qual] = guards
     keep = [n.id for n in ast.walk(fors[0].target) if isinstance(n, ast.Name)]
     return fx.x(st.targets[0].slice, keep=keep), fx.x(st.value, keep=keep), fors[0].target, fx.x(fors[0].iter), hf
+
+
+def _module_dict(module, name):
+    """module level NAME = {<str>: <expr>, ..} bound exactly once -> [(key, value node)] in order, else None"""
+    hits = [st for st in module.tree.body if (isinstance(st, ast.Assign) and any(isinstance(t, ast.Name) and t.id == name for t in st.targets))
+            or (isinstance(st, ast.AnnAssign) and isinstance(st.target, ast.Name) and st.target.id == name)]
+    if len(hits) != 1 or not isinstance(hits[0].value, ast.Dict) or any(k is None or const_str(k) is None for k in hits[0].value.keys):
+        return None
+    if any(isinstance(n, ast.Global) and name in n.names for n in ast.walk(module.tree)):
+        return None
+    return [(k.value, v) for k, v in zip(hits[0].value.keys, hits[0].value.values)]
+
+
+def _table_kwargs(f, fx, star, rowvar, row_loop):
+    """**D where `D = {}` (per row) and `for K, P in TABLE.items(): D[K] = <expr over K, P, row>` with TABLE a module level
+    dict literal {column name: converter}: the loop is unrolled  ->  {column: <expr with K, P replaced>} else None"""
+    if not (isinstance(star, ast.Name) and star.id in fx.acc):
+        return None
+    name = star.id
+    stores = [n for n in walk_no_nested(f.node) if isinstance(n, ast.Assign) and len(n.targets) == 1 and isinstance(n.targets[0], ast.Subscript)
+              and isinstance(n.targets[0].value, ast.Name) and n.targets[0].value.id == name]
+    muts = [n for n in walk_no_nested(f.node) if isinstance(n, ast.Call) and isinstance(n.func, ast.Attribute) and isinstance(n.func.value, ast.Name)
+            and n.func.value.id == name]
+    if len(stores) != 1 or muts or len(fx.flow.defs_of(name)) != 1 or not isinstance(stores[0].targets[0].slice, ast.Name):
+        return None
+    st = stores[0]
+    fors = [l for l in fx.enclosing_fors(st) if l is not row_loop]
+    if len(fors) != 1 or fx.cfg.conditions(fx.cfg.node_of(st)) != fx.cfg.conditions(fx.cfg.node_of(fors[0])):
+        return None         # conditional store: not a plain table walk
+    d = fx.flow.defs_of(name)[0]
+    if row_loop is not None and (d.stmt is None or row_loop not in fx.enclosing_fors(d.stmt)):
+        return None
+    lp = fors[0]
+    kname = st.targets[0].slice.id
+    it = lp.iter
+    pname = None
+    if isinstance(it, ast.Call) and isinstance(it.func, ast.Attribute) and it.func.attr == 'items' and not it.args and isinstance(it.func.value, ast.Name) \
+            and isinstance(lp.target, ast.Tuple) and len(lp.target.elts) == 2 and all(isinstance(e, ast.Name) for e in lp.target.elts) \
+            and lp.target.elts[0].id == kname:
+        table, pname = it.func.value.id, lp.target.elts[1].id
+    elif isinstance(it, ast.Name) and isinstance(lp.target, ast.Name) and lp.target.id == kname:
+        table = it.id
+    else:
+        return None
+    if table in fx.locals:
+        return None
+    entries = _module_dict(f.module, table)
+    if entries is None:
+        return None
+    body = fx.x(st.value, keep=[rowvar, kname] + ([pname] if pname else []))
+    out = {}
+    for key, val in entries:
+        sub = {kname: ast.Constant(value=key)}
+        if pname:
+            sub[pname] = val
+        e = subst(body, sub)
+        if not pname:
+            # TABLE[K] inside the expression
+            class T(ast.NodeTransformer):
+                def visit_Subscript(self, n):
+                    self.generic_visit(n)
+                    if isinstance(n.value, ast.Name) and n.value.id == table and isinstance(n.slice, ast.Constant) and n.slice.value == key:
+                        return val
+                    return n
+            e = T().visit(e)
+        if key in out:
+            return None
+        out[key] = ast.fix_missing_locations(e)
+    return out
 
 
 def _peel_filter(it, tn):
@@ -2176,6 +2362,7 @@ def ob_order(ctx, o, F):
                     and isinstance(n.value.left, ast.List):
                 o.refute(f, n, src(n)[:80], f"`{src(n)[:60]}` prepends: order is reversed")
     _pred_rebuild(ctx, o)
+    _children_rebuild(ctx, o)
     # ---- the sequences handed from stage to stage
     wr, rd = prog.func(CSV + '.write_csv'), prog.func(CSV + '.read_csv')
     t2r, r2w = prog.func(RAW + '.tasks_to_raws'), prog.func(RAW + '.raws_to_wbs')
@@ -2328,6 +2515,34 @@ def _pred_rebuild(ctx, o):
                 judge_comp(fn, n, fx.x(n.value), n.value)
     if not found:
         o.undecided(prog.func(RAW + '.raws_to_wbs'), None, 'predecessor rebuild', "no store into `.predecessors` found in io/raw.py: how predecessor lists are rebuilt is not recognised")
+
+
+def _children_rebuild(ctx, o):
+    """where io/raw.py fills `<parent>.children`: one append per row in file order is the recognised shape.  Refuted: the
+    children list is ASSIGNED per group of `itertools.groupby(<rows in file order>, key=..parent_id..)` - groupby only groups
+    consecutive rows, the direct children of one parent are separated by the subtrees of their siblings (pre-order), so the parent
+    gets several groups and each assignment replaces the children attached before."""
+    prog = ctx.prog
+    for fn in [fn for q, fn in prog.funcs.items() if fn.kind == 'function' and fn.module.name == RAW and fn.name != 'tasks_to_raws']:
+        fx = fx_of(ctx, fn)
+        for n in walk_no_nested(fn.node):
+            if isinstance(n, ast.Call) and isinstance(n.func, ast.Attribute) and n.func.attr == 'append' and isinstance(n.func.value, ast.Attribute) \
+                    and n.func.value.attr == 'children' and fx.enclosing_fors(n):
+                o.site(fn, n, f"children attached one by one in row order: {src(n)[:50]}")
+            elif isinstance(n, ast.Assign) and any(isinstance(t, ast.Attribute) and t.attr == 'children' for t in n.targets):
+                for lp in fx.enclosing_fors(n):
+                    it = fx.x(lp.iter)
+                    if isinstance(it, ast.Call) and attr_path(it.func) in ('groupby', 'itertools.groupby') and it.args:
+                        keyx = it.args[1] if len(it.args) > 1 else next((k.value for k in it.keywords if k.arg == 'key'), None)
+                        sorted_in = any(isinstance(c, ast.Call) and isinstance(c.func, ast.Name) and c.func.id == 'sorted' for c in ast.walk(it.args[0]))
+                        if not sorted_in and keyx is not None and any(isinstance(a, ast.Attribute) and a.attr == 'parent_id' for a in ast.walk(keyx)):
+                            o.refute(fn, n, f"{src(n.targets[0])[:40]} = group of groupby({src(lp.iter.args[0])[:30] if isinstance(lp.iter, ast.Call) and lp.iter.args else '..'})",
+                                     f"`{src(n)[:60]}` assigns the children list once per group of `{src(lp.iter)[:70]}`: groupby only groups CONSECUTIVE "
+                                     f"rows, and in WBS (pre-order) rows the direct children of one parent are separated by their siblings' subtrees - the "
+                                     f"parent gets several groups and every assignment replaces the children attached before (hierarchy depth >= 3 loses subtrees)")
+                        else:
+                            o.undecided(fn, n, n, "children list assigned per groupby group: grouping not understood")
+                        break
 
 
 def _returns_accumulator(ctx, fn) -> bool:
